@@ -5,8 +5,63 @@ import (
 	"encoding/hex"
 	"go/ast"
 	"sort"
+	"strconv"
 	"strings"
 )
+
+// factsKinds: the kinds a lookup accepts = the keys of xdsresource.ResourceTypeToURL, as the numbers the iota block gives them.
+func factsKinds(o *out, res pkgFiles) {
+	num := map[string]int{}
+	var keys []string
+	for _, f := range res {
+		for _, d := range f.Decls {
+			gd, ok := d.(*ast.GenDecl)
+			if !ok {
+				continue
+			}
+			iotaBlock := false
+			for i, sp := range gd.Specs {
+				vs, ok := sp.(*ast.ValueSpec)
+				if !ok {
+					continue
+				}
+				if len(vs.Names) == 1 && vs.Type != nil && src(vs.Type) == "ResourceType" && len(vs.Values) == 1 && src(vs.Values[0]) == "iota" && i == 0 {
+					iotaBlock = true
+				}
+				if iotaBlock && len(vs.Names) == 1 {
+					if i > 0 && (vs.Type != nil || len(vs.Values) != 0) {
+						o.note("kinds: the ResourceType block is not a plain iota enumeration at %s", vs.Names[0].Name)
+					}
+					num[vs.Names[0].Name] = i
+				}
+				if len(vs.Names) == 1 && vs.Names[0].Name == "ResourceTypeToURL" && len(vs.Values) == 1 {
+					if cl, ok := vs.Values[0].(*ast.CompositeLit); ok {
+						for _, e := range cl.Elts {
+							if kv, ok := e.(*ast.KeyValueExpr); ok {
+								keys = append(keys, src(kv.Key))
+							}
+						}
+					}
+				}
+			}
+		}
+	}
+	var ks []int
+	for _, k := range keys {
+		n, ok := num[k]
+		if !ok {
+			o.note("kinds: key %s of ResourceTypeToURL is not in the ResourceType enumeration", k)
+			continue
+		}
+		ks = append(ks, n)
+	}
+	sort.Ints(ks)
+	var parts []string
+	for _, k := range ks {
+		parts = append(parts, strconv.Itoa(k))
+	}
+	o.line("def knownKinds : List Nat := [%s]", strings.Join(parts, ", "))
+}
 
 // factsGet: shape facts of xdsResourceManager.Get, and the lock-nesting edges of the manager package.
 func factsGet(o *out, mgr pkgFiles) {
